@@ -21,8 +21,7 @@ from nodelemmas import Obl, OPAQUE, RES, EE, VAL, TargetOracle, TargetOpOracle, 
 
 OPT_VAL = "std::option::Option<value::value::Value>"
 
-STATE_BASED = {"Variable": "constant comes from LocalEnv (type state), value from RuntimeState",
-               "Query": "Internal target: delegates to Variable; External: never constant",
+STATE_BASED = {"Variable": "constant comes from LocalEnv (type state), value from RuntimeState: proved separately under the store relation R (simlemmas.variable_obligations)",
                "FunctionExpressionAdapter": "constant is FunctionExpression::as_value(): each stdlib function's own contract (as_value() == what resolve returns)"}
 
 
